@@ -408,3 +408,17 @@ Proof.
     rewrite utf8_encode_ascii by (now apply enc_full_ascii);
     rewrite b64_bytes_roundtrip by assumption; now rewrite utf8_roundtrip.
 Qed.
+
+Lemma b64_engine_roundtrip e l :
+  bytes l ->
+  b64_decode_bytes (alphabet_of (fst (engine_cfg e))) Indifferent false (b64_encode_engine e l) = DOk l.
+Proof. intros H. rewrite encode_engine_full. now apply b64_bytes_roundtrip. Qed.
+
+Lemma b64_engine_shape e l :
+  bytes l ->
+  exists body k,
+    b64_encode_engine e l = body ++ repeat 61 k /\
+    Forall (fun c => is_b64_char (url_of (fst (engine_cfg e))) c = true) body /\
+    (k <= 2)%nat /\ (snd (engine_cfg e) = false -> k = 0%nat) /\
+    (snd (engine_cfg e) = true -> (length (b64_encode_engine e l) mod 4 = 0)%nat).
+Proof. intros H. rewrite encode_engine_full. now apply enc_full_shape. Qed.
